@@ -7,7 +7,7 @@ from ..core import fl, arr, nat, boolc, CoqCases, judge
 
 IMPORTS = "Drag"
 
-K_LAMS = [0.0, 0.05, 0.5, 0.999, 1.0, 1.0]
+K_LAMS = [0.0, 0.004, 0.05, 0.5, 0.999, 1.0, 1.0]     # 0.004: a small laminar fraction is not 'no laminar flow'
 
 
 def _strip(rng, ny):
